@@ -21,6 +21,20 @@ func newState() *State {
 	return &State{cells: map[*Cell]Value{}, heaps: map[string]*Term{}, ev: map[string]*EvKind{}}
 }
 
+// quantFree: the facts without quantifiers.  A vacuity guard asks a solver for a *model*; quantified
+// facts (invariants over all elements of a list, node invariants) make that search time out without
+// ever being the reason for a contradiction in practice, so the guards look at the quantifier-free
+// part of the assumptions / path conditions only (a weaker, but decidable, sanity check).
+func quantFree(ts []*Term) []*Term {
+	var out []*Term
+	for _, t := range ts {
+		if !hasQuant(t) {
+			out = append(out, t)
+		}
+	}
+	return out
+}
+
 var funcBudgetSec = 20
 
 var srcCache = map[token.Pos]string{}
@@ -255,13 +269,13 @@ func (w *World) verifyFunc(fn *ssa.Function) *FuncResult {
 	assumedSomething := (fc != nil && len(fc.Requires) > 0) || len(invs) > 0
 	if assumedSomething && len(vprops) > 0 {
 		x.obls = append(x.obls, &Obl{Name: key + "#vacuity#entry-assumptions-are-consistent", Func: key, Kind: "vacuity", Label: "entry-assumptions-are-consistent",
-			Props: vprops, Assumes: st.pc.list(), Goal: False})
+			Props: vprops, Assumes: quantFree(st.pc.list()), Goal: False})
 	}
 	var retPCs []*Term
 	x.runBlock(st, fn.Blocks[0], nil, func(s2 *State, results []Value) {
 		res.Returns++
 		if len(retPCs) < 64 {
-			retPCs = append(retPCs, And(s2.pc.list()...))
+			retPCs = append(retPCs, And(quantFree(s2.pc.list())...))
 		}
 		ri := &ReplayInfo{Fn: fn, Inputs: rin}
 		for i, r := range results {
